@@ -620,6 +620,10 @@ func NewResponse(res *http.Response, withBody bool) (*Response, error) {
 			body, err = readBody(mv)
 			if tec := len(res.TransferEncoding); err == nil && tec > 0 && res.TransferEncoding[tec-1] == "chunked" {
 				body, err = ioutil.ReadAll(httputil.NewChunkedReader(bytes.NewReader(body)))
+				if err == io.ErrUnexpectedEOF {
+					// The origin ended the body early: log what there is of it.
+					err = nil
+				}
 			}
 			if err != nil {
 				return nil, err
@@ -823,6 +827,10 @@ func postData(req *http.Request, logBody bool) (*PostData, error) {
 	}
 
 	body, err := ioutil.ReadAll(br)
+	if err == io.ErrUnexpectedEOF {
+		// The client ended the body early: log what there is of it.
+		err = nil
+	}
 	if err != nil {
 		return nil, err
 	}
